@@ -1,5 +1,6 @@
 import NetqasmVerif.Driver.Json
 import NetqasmVerif.Model.QubitMgr
+import NetqasmVerif.Driver.Template
 open Lean
 namespace NQ.Drv
 open NQ.QM
@@ -83,6 +84,6 @@ def handleQubitMgr (op : String) (j : Json) : Option Json :=
     let ops ← (jField? j "ops").bind jArr?
     let ops ← ops.toList.mapM qmOpOfJson
     pure (Json.mkObj [("snaps", Json.arr (qmRun ⟨nv || tr, tr, mq⟩ St.init ops).toArray)])
-  else none
+  else handleTemplate op j
 
 end NQ.Drv
